@@ -332,6 +332,36 @@ static int tinfoId(const Value* V) {
   return id;
 }
 
+static string baseName(StructType* ST) {
+  if (!ST->hasName()) return "";
+  string n = ST->getName().str();
+  // strip llvm-link's numeric uniquifier (".123") and clang's tail-padding variant (".base")
+  auto stripNum = [&]() {
+    size_t dot = n.rfind('.');
+    if (dot == string::npos || dot + 1 >= n.size()) return;
+    for (size_t i = dot + 1; i < n.size(); i++) if (!isdigit((unsigned char)n[i])) return;
+    n = n.substr(0, dot);
+  };
+  stripNum();
+  if (n.size() > 5 && n.compare(n.size() - 5, 5, ".base") == 0) n = n.substr(0, n.size() - 5);
+  stripNum();
+  return n;
+}
+static bool derivesFrom(Type* X, StructType* B, int depth = 0) {
+  auto* SX = dyn_cast<StructType>(X);
+  if (!SX || depth > 8) return false;
+  if (SX == B || (!baseName(SX).empty() && baseName(SX) == baseName(B))) return true;
+  if (SX->isOpaque()) return false;
+  for (unsigned i = 0; i < SX->getNumElements(); i++)
+    if (derivesFrom(SX->getElementType(i), B, depth + 1)) return true;
+  return false;
+}
+// class of the implicit object argument (`this`) of a member function / a virtual call
+static StructType* thisClass(Type* firstParam) {
+  if (!firstParam || !firstParam->isPointerTy()) return nullptr;
+  return dyn_cast<StructType>(firstParam->getPointerElementType());
+}
+
 // candidates for a virtual call through slot `slot`
 static std::vector<const Function*> vtableCandidates(int64_t slot, const CallBase* CB) {
   std::vector<const Function*> cands;
@@ -346,6 +376,13 @@ static std::vector<const Function*> vtableCandidates(int64_t slot, const CallBas
       if ((int64_t)CAr->getNumOperands() <= 2 + slot) continue;
       auto* Fc = dyn_cast<Function>(CAr->getOperand(2 + slot)->stripPointerCasts());
       if (!Fc || seen.count(Fc)) continue;
+      // static type filter: the implementation's class must be the call's static class or derive from it
+      // (or the other way round, when the call goes through a derived-class pointer to an inherited function)
+      if (CB->arg_size() > 0 && Fc->arg_size() > 0) {
+        StructType* want = thisClass(CB->getArgOperand(0)->getType());
+        StructType* have = thisClass(Fc->getFunctionType()->getParamType(0));
+        if (want && have && !want->isOpaque() && !have->isOpaque() && !derivesFrom(have, want) && !derivesFrom(want, have)) continue;
+      }
       if (Fc->getFunctionType() != CB->getFunctionType()) {
         // thunks / covariant returns may differ in pointer types only: compare C-level shapes
         if (Fc->arg_size() != CB->arg_size()) continue;
